@@ -359,7 +359,7 @@ def oniom_same_cases(draw, tier):
     nondefault = [b for b in lbs if b != "sto-3g"]
     lb = draw(st.sampled_from(nondefault if (nondefault and share != "fresh" and draw(st.integers(0, 3)) > 0) else lbs))
     models = [draw(model_fragments(sysd, prefer_basis=lb if share != "fresh" else None)) for _ in range(draw(st.sampled_from([1, 1, 2])))]
-    return {"sys": sysd, "low": low, "low_basis": lb, "models": models, "share": share, "twice": draw(st.integers(0, 3)) == 0,
+    return {"sys": sysd, "low": low, "low_basis": lb, "models": models, "share": share, "twice": draw(st.integers(0, 3)) == 0, "resimulate": draw(st.booleans()),
             "order": draw(st.sampled_from(["system-first", "system-last"])),
             "geom_format": draw(st.sampled_from(["list", "list", "string"]))}
 
@@ -385,7 +385,7 @@ def oniom_whole_cases(draw, tier):
     sel = list(draw(st.permutations(list(range(n))))) if form == "list" else (n if form == "int" else None)
     extras = [draw(model_fragments(sysd, allow_links=False, prefer_basis=lb if share != "fresh" else None))] if draw(st.integers(0, 3)) == 0 else []
     return {"sys": sysd, "low": low, "low_basis": lb, "high": high, "high_basis": hb, "sel": sel, "extras": extras,
-            "share": share, "twice": draw(st.integers(0, 3)) == 0,
+            "share": share, "twice": draw(st.integers(0, 3)) == 0, "resimulate": draw(st.booleans()),
             "order": draw(st.sampled_from(["system-first", "system-last"])),
             "geom_format": draw(st.sampled_from(["list", "list", "string"]))}
 
@@ -473,7 +473,8 @@ def dmet_cases(draw, tier):
             "count_form": draw(st.integers(0, 3)) > 0, "solvers": solvers, "loc": loc,
             "optimizer": draw(st.sampled_from(["newton-1e-9", "newton-1e-9", "newton-1e-9+probe", "newton-1e-9+probe", "default"])),
             "perm": perm, "frag_order": list(draw(st.permutations(list(range(len(frags)))))),
-            "reverse_within": bool(draw(st.booleans()))}
+            "reverse_within": bool(draw(st.booleans())),
+            "resimulate": draw(st.integers(0, 2)) == 0, "second_build": draw(st.integers(0, 2)) == 0}
 
 
 # ---- method of increments
